@@ -489,6 +489,7 @@ pub fn run(tier: Tier) -> i32 {
     }
     let local = Cfg { use_local_styles: true, ..Cfg::default() };
     rep.set("rule", json!(format!("Reserved vocabulary of {} classes: 148 colour keywords x {{d-, d-fill-, d-text-, d-text-ol-}}, 28 text alignment/weight/size/outline classes, stroke widths, arrows, flow/dash classes, 6 pattern families plain and with suffixes {{1, 5, 100, 101, 05, x, 5x}}, shadows, surround, plus non-rule classes (d-text-outside, d-inside, d-nonsense). (documents) every single class x 5 carriers (rect, line, rect with text, text, group with path) x 10 configurations (6 themes, background, font, debug, auto-styles off) x 4 author <style>/<defs> variants, each class also in a fragment; all pairs and triples of 22 family representatives (1 771 subsets) spread over two carriers; local styles. Each document is run with auto-styles on and off: the content after the injected blocks must equal the off-output (author style/defs intact; nothing injected for fragments / when disabled), every url(#id) in an emitted rule or definition is defined exactly once, every rule naming a d- class has that class on an output element, every definition is referenced, and every reserved class on an element its rule can apply to has a rule. (probe) the same oracle on the theme builder directly for every single class and every pair of the vocabulary x element sets x 6 themes. Non-trivial = rules were injected and all clauses hold.", vocab.len())));
+    rep.set("also_later", json!("Round 4 added: class lists separated by a line break / tab inside a passed-through <svg>; root ids '-1', '-', '--x', '-a' with local styles (the CSS identifier rule for a leading hyphen)."));
     rep.set("also", json!("Also: reserved classes on the root element itself (with content and as an empty root); local styles with an author-supplied root id (rules must be scoped to an id the output has); local styles requested with auto-styles off (nothing injected, no id)."));
     let st = run_space(docs.len(), |i| {
         let (d, k, sig) = &docs[i];
